@@ -7,6 +7,7 @@ objects are checked against matrices of the group enumerated independently."""
 from __future__ import annotations
 
 import itertools
+import math
 
 import numpy as np
 
@@ -24,7 +25,7 @@ RULE = ("Clifford circuits over catalogue families at half-integer exponents wit
         "non-trivial = non-identity element / circuit with >=2 operations; distinct by word or program text")
 ASSUMPTIONS = ["catalogue matrices are ground truth", "group enumeration by breadth-first search over generator matrices modulo phase"]
 MIN_EVAL = {"tableau-stabilizers-stabilize": 2000, "chform-amplitudes==psi": 2000, "clifford-run-distribution": 100,
-            "single-qubit-group": 500, "two-qubit-group": 300}
+            "single-qubit-group": 500, "two-qubit-group": 300, "state-objects": 2000}
 MUST_REACH = [
     "cirq/qis/clifford_tableau.py:CliffordTableau.apply_x", "cirq/qis/clifford_tableau.py:CliffordTableau.apply_h",
     "cirq/qis/clifford_tableau.py:CliffordTableau.apply_cx", "cirq/qis/clifford_tableau.py:CliffordTableau.apply_cz",
@@ -126,6 +127,82 @@ def sec_states(ctx, rng, case):
             break
     ctx.distinct((n, k0, tuple(P.describe(steps))), nontrivial=len(steps) >= 2)
     ctx.sample({"n": n, "initial": k0, "program": P.describe(steps)[:8]})
+
+
+def sec_state_objects(ctx, rng, case):
+    """the state classes as values: copy() gives an independent state, a non-collapsing measurement leaves the state as
+    it is (and reports an outcome the state allows), a collapsing one leaves the projected state"""
+    import cirq
+
+    n = int(rng.integers(1, 5))
+    qubits = P.make_qubits(rng, (2,) * n)
+    k0 = int(rng.integers(2 ** n))
+    kind = ["CliffordState", "ch-sim-state", "tableau-sim-state", "ch-form"][int(rng.integers(4))]
+    psi = np.zeros(2 ** n, dtype=complex)
+    psi[k0] = 1
+    if kind == "CliffordState":
+        obj = cirq.CliffordState({q: i for i, q in enumerate(qubits)}, initial_state=k0)
+    elif kind == "ch-sim-state":
+        obj = cirq.StabilizerChFormSimulationState(qubits=qubits, prng=np.random.RandomState(int(rng.integers(1 << 30))), initial_state=k0)
+    elif kind == "tableau-sim-state":
+        obj = cirq.CliffordTableauSimulationState(tableau=cirq.CliffordTableau(n, initial_state=k0), qubits=qubits,
+                                                  prng=np.random.RandomState(int(rng.integers(1 << 30))))
+    else:
+        obj = cirq.StabilizerStateChForm(n, k0)
+
+    def act(o, st):
+        op = P.step_to_op(st, qubits)
+        if kind == "CliffordState":
+            o.apply_unitary(op)
+        elif kind == "ch-form":
+            cirq.act_on(op, cirq.StabilizerChFormSimulationState(qubits=qubits, prng=np.random.RandomState(0), initial_state=o))
+        else:
+            cirq.act_on(op, o)
+
+    def agrees(o, want):
+        if kind == "tableau-sim-state":
+            return all(L.allclose(_dps_matrix(sb, n) @ want, want, 1e-7) for sb in o.tableau.stabilizers())
+        sv = o.state_vector() if kind in ("CliffordState", "ch-form") else o.state.state_vector()
+        return L.allclose(sv, want, 1e-6)
+
+    log = []
+    wit = dict(n=n, initial=k0, kind=kind, log=log)
+    pairs = [(obj, psi)]
+    for i in range(int(rng.integers(3, 14))):
+        j = int(rng.integers(len(pairs)))
+        o, v = pairs[j]
+        r = rng.random()
+        if r < 0.55:
+            st = _clifford_step(rng, n, cirq)
+            ref = P.step_to_ref(st)
+            act(o, st)
+            pairs[j] = (o, L.apply_to_state(v, ref.matrix, ref.wires, (2,) * n))
+            log.append("state%d: %s" % (j, P.describe([st])[0]))
+        elif r < 0.8 and len(pairs) < 4:
+            pairs.append((o.copy(), v.copy()))
+            log.append("state%d = state%d.copy()" % (len(pairs) - 1, j))
+        elif kind == "CliffordState":
+            w = int(rng.integers(n))
+            collapse = bool(rng.integers(2))
+            meas = {}
+            o.apply_measurement(cirq.measure(qubits[w], key="m"), meas, np.random.RandomState(int(rng.integers(1 << 30))), collapse_state_vector=collapse)
+            bit = int(meas["m"][0])
+            proj = L.apply_to_state(v, np.diag([1.0 - bit, float(bit)]).astype(complex), (w,), (2,) * n)
+            pr = float(np.vdot(proj, proj).real)
+            log.append("state%d: measure wire %d collapse=%s -> %d" % (j, w, collapse, bit))
+            if not ctx.check(pr > 1e-9, "state-objects", "C13:state-object:impossible-outcome", "reported an outcome of probability %.3g" % pr, **wit):
+                return
+            if collapse:
+                pairs[j] = (o, proj / math.sqrt(pr))
+        else:
+            continue
+        # every state object in play still is the state its own history says (up to what its representation fixes)
+        for jj, (oo, vv) in enumerate(pairs):
+            if not ctx.check(agrees(oo, vv), "state-objects", "C13:state-object:copy-or-measurement-leaks:" + kind,
+                             "after %r state%d is not the state its own history gives" % (log[-1], jj), **wit):
+                return
+    ctx.distinct((kind, n, k0, tuple(log)), nontrivial=len(pairs) > 1)
+    ctx.sample({"kind": kind, "n": n, "log": list(log)[:10]})
 
 
 def sec_simulator(ctx, rng, case):
@@ -377,6 +454,7 @@ def teardown(ctx):
 
 SECTIONS = [
     ("states", sec_states, 3000, 60000, 3.0),
+    ("state_objects", sec_state_objects, 1500, 30000, 1.5),
     ("simulator", sec_simulator, 1200, 30000, 1.0),
     ("run", sec_run, 900, 20000, 2.0),
     ("group1", sec_group1, 24, 24, 1.0),
